@@ -435,7 +435,18 @@ pub fn run(tier: &str, replay: Option<Value>) -> ! {
         rep.replay_mode = true;
         let case = if case.get("case").is_some() { case["case"].clone() } else { case };
         let y = case["yaml"].as_str().unwrap_or("").to_string();
-        if case["part"].as_str() == Some("drain") {
+        if case["engine"].as_str() == Some("ehist") {
+            match crate::ehist::all_cfgs().and_then(|cfgs| crate::ehist::replay_case(&case, &cfgs)) {
+                Ok(found) => {
+                    for f in found {
+                        if f.property == "C02" {
+                            rep.violation(f.v);
+                        }
+                    }
+                }
+                Err(e) => rep.machinery_error(format!("replay: {e}")),
+            }
+        } else if case["part"].as_str() == Some("drain") {
             for t in trees(true) {
                 if format!("---\ndhcp-policies:\n{}", t.yaml(4, true)) == y {
                     for v in drain_case(&t).2 {
@@ -453,10 +464,33 @@ pub fn run(tier: &str, replay: Option<Value>) -> ! {
     let (n1, mut classes) = addresses_part(&mut rep, thorough);
     let (trees_n, n2, c2) = drain_part(&mut rep, thorough);
     classes.extend(c2);
+    // histories on one long-lived Pool across pool changes and interfaces: every reply's address
+    // must lie in the pool configured for that client on that interface *now*
+    let (mut n3, mut ll_depth) = (0u64, 0u32);
+    match crate::ehist::all_cfgs() {
+        Ok(cfgs) => {
+            let alpha = crate::ehist::longlived_alphabet(&cfgs, thorough);
+            ll_depth = if thorough { 4 } else { 3 };
+            match crate::ehist::longlived_histories(&cfgs, &alpha, &crate::ehist::longlived_roots(), ll_depth, false) {
+                Ok((st, found)) => {
+                    n3 = st.steps;
+                    for f in found {
+                        if f.property == "C02" {
+                            rep.violation(f.v);
+                        }
+                    }
+                }
+                Err(e) => rep.machinery_error(format!("long-lived histories: {e}")),
+            }
+        }
+        Err(e) => rep.machinery_error(e),
+    }
     crate::common::clock::unset();
-    rep.cov("evaluations", n1 + n2);
+    rep.cov("long_lived_message_steps", n3);
+    rep.cov("long_lived_depth", ll_depth);
+    rep.cov("evaluations", n1 + n2 + n3);
     rep.cov("distinct_nontrivial", classes.len() as u64);
-    rep.cov("rule", "addresses: every prefix length 16..30 (thorough 10..30) x written with/without host bits x server address {first, last, middle host, outside} x reserved address {none, first, last, second host}: build_default_config's pool vs hosts - server - reserved. drain: policy trees over 192.0.2.0/28 (root: apply-subnet /28 /29 /30, every apply-range in a 6-address window, 1-2 apply-address; 0-2 children matching hardware addresses M1/M2 with address/range/subnet/no pool, a condition-less wrapper, a depth-3 reservation; overlapping sibling pools skipped) x 3 hardware addresses, each drained with fresh client identifiers through handle_pkt until the no-address error. distinct = shape classes");
+    rep.cov("rule", "addresses: every prefix length 16..30 (thorough 10..30) x written with/without host bits x server address {first, last, middle host, outside} x reserved address {none, first, last, second host}: build_default_config's pool vs hosts - server - reserved. drain: policy trees over 192.0.2.0/28 (root: apply-subnet /28 /29 /30, every apply-range in a 6-address window, 1-2 apply-address; 0-2 children matching hardware addresses M1/M2 with address/range/subnet/no pool, a condition-less wrapper, a depth-3 reservation; overlapping sibling pools skipped) x 3 hardware addresses, each drained with fresh client identifiers through handle_pkt until the no-address error. histories: every history of exactly long_lived_depth operations over {4 configurations with different pools / two interfaces / a reservation, 2 clients, DISCOVER/REQUEST with and without a named address, 2-3 clock steps} on ONE never-reopened Pool, every reply's address judged against the pool configured for that client on that interface at that step. distinct = shape classes");
     rep.cov("exhaustive", true);
     rep.cov("parts", json!({"addresses_configs": n1, "policy_trees": trees_n, "drain_requests": n2}));
     rep.cov("classes_sample", json!(classes.iter().take(12).collect::<Vec<_>>()));
